@@ -152,6 +152,8 @@ def check(F, rep, tier):
     sf = F.fn("crate::cli::utils::template::functions::sanitize_function")
     if rep.anchor("R15.5", "sanitize_function", sf):
         rep.fn_seen(sf)
+        # sanitize_with_preset(..) / argument-reading helpers are seen through; the Sanitizer constructors stay calls
+        sf = mir.inlined(F, sf, depth=3, ok=lambda F_, caller, cp, g: g is not None and g.kind != "closure" and cp.startswith("crate::cli::utils::template::functions::"))
         tab = {}
         try:
             for p_ in mir.enum_paths(sf, limit=20000):
